@@ -56,6 +56,10 @@ CLAIMED = {
  "C01": dict(level="other", technique="static analysis: transmit-site typestates from the interprocedural variant analysis, interprocedural must-guard (sync pause) check, per-path event marks with result correlation (one transmission per poll), dependency/value-term checks for mark_tx and the 33/11-bit constants over rustc MIR",
    text="Decides the single-station structural clauses: every PHY transmission happens in an allowed typestate (token / GAP request in ClaimToken|PassToken, status reply in ListenToken|ActiveIdle with a recorded request addressed to this station, application telegram in UseToken; claim only after the silence time-out); every transmission is preceded in the same poll by the 33-bit synchronisation pause, the dispatch by the ongoing-transmission check and the RX-activity update; no second transmission per poll; the byte count of each transmission reaches mark_tx = now + bits_to_time(11*bytes); time-out stagger depends on address and slot time; single bit/time conversion. Collision freedom between several independently scheduled stations and µs timing are NOT decided (schedules of independent processes).",
    note="Trusted: " + TB + "; rules/spec_tables.json; callback contracts of the provided PHY helpers.", ref="§4-C01"),
+
+ "C20": dict(level="other", technique="static analysis: sibling-arm table extraction (conversion target, width, endianness), dependency check of bit-field stores on the previous byte, must-guard and per-path/per-iteration counters for check-before-write over the rustc MIR of gsd-parser",
+   text="Decides the per-type encoding table (signed types through their signed type, big-endian, widths, size()), the read-modify-write dependency and range guards of bit fields, that nothing is written on a path returning an error, that the declared constraint is checked before the write, that names/texts are resolved before any write and that every default is written unconditionally. One recorded known finding (BitArea overwrites the whole byte; its repair would change a pinned snapshot). The overlay over whole layouts as a value relation is not decided.",
+   note="Trusted: " + TB + ".", ref="§4-C20"),
 }
 
 NA = {
